@@ -276,7 +276,7 @@ pub fn judge_c16(sys: &SimSys, stats: &mut Stats) -> JobOut {
     out.events = r.evs.len() as u64;
     out.out_hash = hash_evs(&r.evs);
     for (client, stream, n) in sides(sys, &r, stats) {
-        let (fired, v17, _, pbb) = monitors::c17_ext(&stream, n);
+        let (fired, v17, _, pbb, zdn) = monitors::c17_full(&stream, n);
         // judge only the prefix on which the replay binding is consistent
         let upto = v17.as_ref().map(|v| v.at).unwrap_or(stream.len());
         if let Some(v) = &v17 {
@@ -286,7 +286,7 @@ pub fn judge_c16(sys: &SimSys, stats: &mut Stats) -> JobOut {
                 break;
             }
         }
-        let (v, st) = monitors::c16(&stream[..upto], &fired, &pbb);
+        let (v, st) = monitors::c16(&stream[..upto], &fired, &pbb, &zdn);
         stats.add("blocking_begins", st.begins);
         stats.add("blocking_ends", st.ends);
         stats.add("packets_sent_during_blocking", st.sent_during_block);
